@@ -85,17 +85,13 @@ CN = "rich/console.py"
 LV = "rich/live.py"
 PR = "rich/progress.py"
 V("c11-line-writes-directly", "C11", CN, "        if count:\n            self._buffer.append(Segment(\"\\n\" * count))\n            self._check_buffer()", "        if count:\n            self.file.write(\"\\n\" * count)", "R11.1")
-V("c11-render-outside-lock", "C11", CN, "        with self._lock:\n            if self._buffer_index == 0:\n                if self.is_jupyter:  # pragma: no cover\n                    from .jupyter import display\n\n                    display(self._buffer)\n                    del self._buffer[:]\n                else:\n                    text = self._render_buffer(self._buffer[:])\n                    del self._buffer[:]\n                    if text:\n                        try:\n                            if WINDOWS:  # pragma: no cover\n                                # https://bugs.python.org/issue37871\n                                write = self.file.write\n                                for line in text.splitlines(True):\n                                    write(line)\n                            else:\n                                self.file.write(text)\n                            self.file.flush()",
-  "        if self._buffer_index == 0:\n            if self.is_jupyter:  # pragma: no cover\n                from .jupyter import display\n\n                display(self._buffer)\n                del self._buffer[:]\n            else:\n                text = self._render_buffer(self._buffer[:])\n                del self._buffer[:]\n                if text:\n                    with self._lock:\n                        try:\n                            if WINDOWS:  # pragma: no cover\n                                # https://bugs.python.org/issue37871\n                                write = self.file.write\n                                for line in text.splitlines(True):\n                                    write(line)\n                            else:\n                                self.file.write(text)\n                            self.file.flush()", "R11.2")
 V("c11-write-unguarded", "C11", CN, "        with self._lock:\n            if self._buffer_index == 0:\n                if self.is_jupyter:", "        with self._lock:\n            if self._buffer_index >= 0:\n                if self.is_jupyter:", "R11.2")
 V("c11-shared-buffer-default", "C11", CN, "    buffer: List[Segment] = field(default_factory=list)", "    buffer: List[Segment] = []", "R11.3")
 V("c11-not-thread-local", "C11", CN, "class ConsoleThreadLocals(threading.local):", "class ConsoleThreadLocals:", "R11.3")
 V("c11-export-text-outside-lock", "C11", CN, "        with self._record_buffer_lock:\n            if styles:\n                text = \"\".join(\n                    (style.render(text) if style else text)\n                    for text, style, _ in self._record_buffer\n                )",
   "        if styles:\n            text = \"\".join(\n                (style.render(text) if style else text)\n                for text, style, _ in self._record_buffer\n            )\n            return text\n        with self._record_buffer_lock:\n            if styles:\n                text = \"\"", "R11.4")
-V("c11-record-outside-lock", "C11", CN, "            with self._record_buffer_lock:\n                self._record_buffer.extend(buffer)", "            self._record_buffer.extend(buffer)", "R11.4")
 V("c11-live-update-no-lock", "C11", LV, "        with self._lock:\n            self._live_render.set_renderable(renderable)\n            if refresh:\n                self.refresh()", "        self._live_render.set_renderable(renderable)\n        if refresh:\n            self.refresh()", "R11.4")
 V("c11-liverender-no-lock", "C11", LV, "        with self._live._lock:\n            lines = console.render_lines(self.renderable, options, pad=False)\n", "        if True:\n            lines = console.render_lines(self.renderable, options, pad=False)\n", "R11.4")
-V("c11-lock-cycle", "C11", CN, "        if self.record:\n            with self._record_buffer_lock:\n                self._record_buffer.extend(buffer)", "        for hook in self._render_hooks:\n            hook.process_renderables([])\n        if self.record:\n            with self._record_buffer_lock:\n                self._record_buffer.extend(buffer)", "R11.5")
 V("c11-join-under-lock", "C11", LV, "                else:\n                    # jupyter last refresh must occur after console pop render hook\n                    # i am not sure why this is needed\n                    self.refresh()\n        if self.auto_refresh and self._refresh_thread is not None:\n            self._refresh_thread.join()\n            self._refresh_thread = None",
   "                else:\n                    # jupyter last refresh must occur after console pop render hook\n                    # i am not sure why this is needed\n                    self.refresh()\n            if self.auto_refresh and self._refresh_thread is not None:\n                self._refresh_thread.join()\n                self._refresh_thread = None", "R11.6")
 V("c11-progress-join-under-lock", "C11", PR, "                self._disable_redirect_io()\n                self.console.pop_render_hook()\n        if self._refresh_thread is not None:\n            self._refresh_thread.join()\n            self._refresh_thread = None",
@@ -145,3 +141,154 @@ V("c10-log-skips-hooks", "C10", CN, "            for hook in self._render_hooks:
   "            new_segments: List[Segment] = []\n            extend = new_segments.extend\n            render = self.render\n            render_options = self.options", "R10.4")
 V("c10-benign-reorder-releases", "C10", LV, "                self._disable_redirect_io()\n                self.console.pop_render_hook()\n                self.console.show_cursor(True)\n", "                self.console.pop_render_hook()\n                self._disable_redirect_io()\n                self.console.show_cursor(True)\n", None)
 V("c10-benign-temp-height", "C10", LR, "            _, height = self._shape\n            return Control(\"\\r\\x1b[2K\" + \"\\x1b[1A\\x1b[2K\" * (height - 1))", "            _, height = self._shape\n            ups = height - 1\n            return Control(\"\\r\\x1b[2K\" + \"\\x1b[1A\\x1b[2K\" * ups)", None)
+
+# ---- C11 (replacements for entries made stale by the F16 fix) ----------------
+V("c11-render-outside-lock2", "C11", CN,
+  "        with self._lock:\n            if self._buffer_index == 0:\n                if self.is_jupyter:  # pragma: no cover\n                    from .jupyter import display\n\n                    display(self._buffer)\n                    del self._buffer[:]\n                else:\n                    if self.record:\n                        with self._record_buffer_lock:\n                            self._record_buffer.extend(self._buffer[:])\n                    text = self._render_buffer(self._buffer[:])\n                    del self._buffer[:]\n                    if text:\n                        try:",
+  "        if self._buffer_index == 0:\n            if self.is_jupyter:  # pragma: no cover\n                from .jupyter import display\n\n                display(self._buffer)\n                del self._buffer[:]\n            else:\n                if self.record:\n                    with self._record_buffer_lock:\n                        self._record_buffer.extend(self._buffer[:])\n                text = self._render_buffer(self._buffer[:])\n                del self._buffer[:]\n                if text:\n                    with self._lock:\n                        try:", "R11.2")
+V("c11-record-outside-lock2", "C11", CN, "                        with self._record_buffer_lock:\n                            self._record_buffer.extend(self._buffer[:])", "                        if True:\n                            self._record_buffer.extend(self._buffer[:])", "R11.4")
+V("c11-lock-cycle2", "C11", CN, "        not_terminal = not self.is_terminal\n        if self.no_color and color_system:", "        for hook in self._render_hooks:\n            hook.process_renderables([])\n        not_terminal = not self.is_terminal\n        if self.no_color and color_system:", "R11.5")
+V("c11-hooks-under-console-lock", "C11", CN, "            for hook in self._render_hooks:\n                renderables = hook.process_renderables(renderables)\n            render_options = self.options.update(", "            with self._lock:\n                for hook in self._render_hooks:\n                    renderables = hook.process_renderables(renderables)\n            render_options = self.options.update(", "R11.5")
+V("c11-buffer-index-shared", "C11", CN, "        return self._thread_locals.buffer_index\n", "        return self._shared_index\n", "R11.3")
+
+# ---- C12 additions -----------------------------------------------------------
+V("c12-update-guard-dropped", "C12", PR, "            if update_completed > 0:\n                _progress.append(ProgressSample(current_time, update_completed))", "            _progress.append(ProgressSample(current_time, update_completed))", "R12.6")
+V("c12-benign-helper-extracted", "C12", PR, [
+  ("            current_time = self.get_time()\n            old_sample_time = current_time - self.speed_estimate_period\n            _progress = task._progress\n\n            popleft = _progress.popleft\n            while _progress and _progress[0].timestamp < old_sample_time:\n                popleft()\n            while len(_progress) > 1000:\n                popleft()\n            if update_completed > 0:\n                _progress.append(ProgressSample(current_time, update_completed))\n            if task.completed >= task.total and task.finished_time is None:\n                task.finished_time = task.elapsed\n\n    def reset(",
+   "            self._record_sample(task, self.get_time(), update_completed)\n\n    def _record_sample(self, task: Task, current_time: float, update_completed: float) -> None:\n        old_sample_time = current_time - self.speed_estimate_period\n        _progress = task._progress\n\n        popleft = _progress.popleft\n        while _progress and _progress[0].timestamp < old_sample_time:\n            popleft()\n        while len(_progress) > 1000:\n            popleft()\n        if update_completed > 0:\n            _progress.append(ProgressSample(current_time, update_completed))\n        if task.completed >= task.total and task.finished_time is None:\n            task.finished_time = task.elapsed\n\n    def reset("),
+], None, None)
+
+# ---- C01 -----------------------------------------------------------------------
+V("c01-constrain-no-min", "C01", "rich/constrain.py", "child_options = options.update(width=min(self.width, options.max_width))", "child_options = options.update(width=self.width)", "R1.1")
+V("c01-tree-full-width", "C01", "rich/tree.py", "                    width=options.max_width\n                    - sum(level.cell_length for level in prefix),", "                    width=options.max_width\n                    + sum(level.cell_length for level in prefix),", "R1.1")
+V("c01-padding-child-too-wide", "C01", "rich/padding.py", "child_options = options.update(width=width - self.left - self.right)", "child_options = options.update(width=width + self.left)", "R1.1")
+V("c01-render-lines-console-width", "C01", CN, "                _rendered, render_options.max_width, include_new_lines=False, pad=pad", "                _rendered, self.width, include_new_lines=False, pad=pad", "R1.2")
+V("c01-panel-title-clamp", "C01", "rich/panel.py", "                options.max_width - 2, max(child_width, title_text.cell_len + 2)", "                width, max(child_width, title_text.cell_len + 2)", "R1.3")
+V("c01-padding-not-expand-unclamped", "C01", "rich/padding.py", "                + self.left\n                + self.right,\n                options.max_width,\n            )", "                + self.left\n                + self.right,\n                options.max_width + self.right,\n            )", "R1.")
+V("c01-benign-temp", "C01", "rich/constrain.py", "            child_options = options.update(width=min(self.width, options.max_width))", "            capped = min(self.width, options.max_width)\n            child_options = options.update(width=capped)", None)
+
+# ---- C03 -----------------------------------------------------------------------
+V("c03-no-reset", "C03", S, 'rendered = f"\\x1b[{attrs}m{text}\\x1b[0m" if attrs else text', 'rendered = f"\\x1b[{attrs}m{text}" if attrs else text', "R3.1")
+V("c03-link-not-closed", "C03", S, '{rendered}\\x1b]8;;\\x1b\\\\"', '{rendered}"', "R3.1")
+V("c03-none-check-dropped", "C03", S, "        if not text or color_system is None:\n            return text", "        if not text:\n            return text", "R3.2")
+V("c03-render-default-system", "C03", CN, "                        text,\n                        color_system=color_system,\n                        legacy_windows=legacy_windows,", "                        text,\n                        legacy_windows=legacy_windows,", "R3.2")
+V("c03-no-color-after-loop", "C03", CN, "        if self.no_color and color_system:\n            buffer = Segment.remove_color(buffer)\n", "", "R3.3")
+V("c03-without-color-keeps-bg", "C03", S, "        style._color = None\n        style._bgcolor = None\n", "        style._color = None\n        style._bgcolor = self._bgcolor\n", "R3.3")
+V("c03-control-guard-dropped", "C03", CN, "            if not_terminal and is_control:\n                continue\n", "", "R3.4")
+V("c03-ansi-cache-unkeyed", "C03", S, "        if self._ansi is None or self._ansi[0] != color_system:", "        if self._ansi is None:", "R3.5")
+V("c03-benign-rename", "C03", CN, "        not_terminal = not self.is_terminal\n", "        not_terminal = not self.is_terminal\n        _unused_flag = not_terminal\n", None)
+
+# ---- C04 -----------------------------------------------------------------------
+MK = "rich/markup.py"
+V("c04-tags-class-extended", "C04", MK, 'r"""((\\\\*)\\[([a-z#\\/].*?)\\])""",', 'r"""((\\\\*)\\[([a-z#\\/@].*?)\\])""",', "R4.1")
+V("c04-escape-single-backslash", "C04", MK, 'return f"{backslashes}{backslashes}\\\\{text}"', 'return f"{backslashes}\\\\{text}"', "R4.1")
+V("c04-pop-outside-try", "C04", MK, "                    try:\n                        span_index, open_tag = pop()\n                    except IndexError:\n                        raise MarkupError(\n                            f\"closing tag '[/]' at position {position} has nothing to close\"\n                        ) from None", "                    span_index, open_tag = pop()", "R4.2")
+V("c04-pop-from-bottom", "C04", MK, "        for index, (_, tag) in enumerate(reversed(style_stack), 1):\n            if tag.name == style_name:\n                return pop(-index)", "        for index, (_, tag) in enumerate(style_stack):\n            if tag.name == style_name:\n                return pop(index)", "R4.2")
+V("c04-no-drain", "C04", MK, "    while style_stack:\n        span_index, tag = style_stack.pop()\n        spans[span_index] = _Span(spans[span_index].start, text_length, str(tag))\n", "", "R4.3")
+V("c04-sorted-spans", "C04", MK, "    text.spans = spans\n", "    text.spans = sorted(spans)\n", "R4.4")
+V("c04-benign-comment", "C04", MK, "    text_length = len(text)\n", "    text_length = len(text)  # final length\n", None)
+
+# ---- C05 -----------------------------------------------------------------------
+TX = "rich/text.py"
+V("c05-init-unstripped-length", "C05", TX, "        self._length: int = len(sanitized_text)", "        self._length: int = len(text)", "R5.1")
+V("c05-append-length-before-strip", "C05", TX, "                text = strip_control_codes(text)\n                self._text.append(text)\n                offset = len(self)\n                text_length = len(text)", "                text_length = len(text)\n                text = strip_control_codes(text)\n                self._text.append(text)\n                offset = len(self)", "R5.1")
+V("c05-right-crop-blind", "C05", TX, "        self._text = [self.plain[:max_offset]]\n        self._length = len(self.plain)", "        self._text = [self.plain[:-amount]]\n        self._length -= amount", "R5.1")
+V("c05-expand-tabs-forgets-length", "C05", TX, "        self._text = [result.plain]\n        self._length = len(self.plain)\n        self._spans[:] = result._spans", "        self._text = [result.plain]\n        self._spans[:] = result._spans", "R5.1")
+V("c05-tokens-offset", "C05", TX, "            offset += len(content)\n        self._length = offset", "            offset += len(content) + 0 * len(style or '')\n        self._length = offset + 1", "R5.1")
+V("c05-pad-left-shift", "C05", TX, "            self.plain = f\"{character * count}{self.plain}\"\n            _Span = Span\n            self._spans[:] = [\n                _Span(start + count, end + count, style)", "            self.plain = f\"{character * count}{self.plain}\"\n            _Span = Span\n            self._spans[:] = [\n                _Span(start + count - 1, end + count - 1, style)", "R5.2")
+V("c05-append-text-late-length", "C05", TX, "        _Span = Span\n        text_length = self._length\n        if text.style is not None:\n            self._spans.append(_Span(text_length, text_length + len(text), text.style))\n        self._text.append(text.plain)", "        _Span = Span\n        self._length += len(text)\n        text_length = self._length\n        if text.style is not None:\n            self._spans.append(_Span(text_length, text_length + len(text), text.style))\n        self._text.append(text.plain)", "R5.")
+V("c05-stylize-sets-plain", "C05", TX, "        self._spans.append(Span(start, min(length, end), style))\n", "        self._spans.append(Span(start, min(length, end), style))\n        self.plain = self.plain.rstrip()\n", "R5.3")
+V("c05-divide-no-sort", "C05", TX, "            line._spans.sort(key=get_order)\n", "", "R5.4")
+V("c05-trim-reversed", "C05", TX, "            for span in self._spans\n            if span.start < max_offset\n        ]\n\n    def pad(", "            for span in reversed(self._spans)\n            if span.start < max_offset\n        ]\n\n    def pad(", "R5.4")
+V("c05-init-no-strip", "C05", TX, "        sanitized_text = strip_control_codes(text)\n", "        sanitized_text = text\n", "R5.5")
+V("c05-benign-temp", "C05", TX, "        new_text._length = offset\n        return new_text", "        total = offset\n        new_text._length = total\n        return new_text", None)
+
+# ---- C07 -----------------------------------------------------------------------
+TB = "rich/table.py"
+V("c07-set-shape-plus-one", "C07", TB, "                _Segment.set_shape(\n                    _cell, width, max_height, style=table_style + row_style\n                )", "                _Segment.set_shape(\n                    _cell, width + 1, max_height, style=table_style + row_style\n                )", "R7.1")
+V("c07-row-reversed-widths", "C07", TB, '_box.get_row(widths, "head", edge=show_edge), border_style', '_box.get_row(widths[::-1], "head", edge=show_edge), border_style', "R7.1")
+V("c07-table-width-no-extra", "C07", TB, "        table_width = sum(widths) + extra_width\n", "        table_width = sum(widths)\n", "R7.1")
+V("c07-extra-width-always-edge", "C07", TB, "        if self.box and self.show_edge:\n            width += 2", "        if self.box:\n            width += 2", "R7.2")
+V("c07-row-no-edge-flag", "C07", TB, '_box.get_row(widths, "row", edge=show_edge), border_style', '_box.get_row(widths, "row"), border_style', "R7.2")
+V("c07-box-five-glyphs", "C07", "rich/box.py", "+--+\n| ||\n|-+|", "+--++\n| ||\n|-+|", "R7.3")
+V("c07-benign-alias", "C07", TB, "        widths = self._calculate_column_widths(console, max_width - extra_width)\n        table_width = sum(widths) + extra_width", "        widths = self._calculate_column_widths(console, max_width - extra_width)\n        inner = sum(widths)\n        table_width = inner + extra_width" if False else "        widths = self._calculate_column_widths(console, max_width - extra_width)\n        table_width = sum(widths) + extra_width  # total", None)
+
+# ---- C08 -----------------------------------------------------------------------
+V("c08-panel-child-width-minus-one", "C08", "rich/panel.py", "        width = child_width + 2\n", "        width = child_width + 3\n", "R8.3")
+V("c08-padding-only-left", "C08", "rich/padding.py", "child_options = options.update(width=width - self.left - self.right)", "child_options = options.update(width=width - self.left)", "R8.3")
+V("c08-padding-blank-short", "C08", "rich/padding.py", 'blank_line = Segment(" " * width + "\\n", style)', 'blank_line = Segment(" " * (width - 1) + "\\n", style)', "R8.3")
+V("c08-panel-width-conditional", "C08", "rich/panel.py", "        width = child_width + 2\n", "        if not self.expand:\n            width = child_width + 2\n", "R8.3")
+V("c08-rule-no-final-resize", "C08", "rich/rule.py", "            rule_text.append(title_text)\n\n        rule_text.plain = set_cell_size(rule_text.plain, width)\n        yield rule_text", "            rule_text.append(title_text)\n\n        yield rule_text", "R8.4")
+V("c08-tree-guide-3", "C08", "rich/tree.py", '("    ", "│   ", "├── ", "└── "),', '("    ", "│   ", "├─ ", "└── "),', "R8.5")
+V("c08-benign-reorder", "C08", "rich/panel.py", "        line_start = Segment(box.mid_left, border_style)\n        line_end = Segment(f\"{box.mid_right}\", border_style)", "        line_end = Segment(f\"{box.mid_right}\", border_style)\n        line_start = Segment(box.mid_left, border_style)", None)
+
+# ---- C09 -----------------------------------------------------------------------
+ME = "rich/measure.py"
+V("c09-with-maximum-max", "C09", ME, "        return Measurement(min(minimum, width), min(maximum, width))", "        return Measurement(min(minimum, width), max(maximum, width))", "R9.1")
+V("c09-get-no-clamp", "C09", ME, "                    .normalize()\n                    .with_maximum(_max_width)\n                )", "                    .normalize()\n                )", "R9.1")
+V("c09-normalize-broken", "C09", ME, [("        minimum = min(max(0, minimum), maximum)\n", ""), ("        return Measurement(max(0, minimum), max(0, max(minimum, maximum)))", "        return Measurement(minimum, maximum)")], None, "R9.1")
+V("c09-benign-normalize-simplified", "C09", ME, "        minimum = min(max(0, minimum), maximum)", "        minimum = max(0, minimum)", None)
+V("c09-direct-measure-call", "C09", TB, "            _min, _max = get_render_width(console, cell.renderable, max_width)", "            _min, _max = cell.renderable.__rich_measure__(console, max_width)", "R9.2")
+V("c09-column-uncapped", "C09", TB, "            return Measurement(\n                column.width + padding_width, column.width + padding_width\n            ).with_maximum(max_width)", "            return Measurement(\n                column.width + padding_width, column.width + padding_width\n            )", "R9.3")
+V("c09-text-key-len", "C09", TX, "        max_text_width = max(cell_len(line) for line in text.splitlines())", "        max_text_width = cell_len(max(text.splitlines(), key=len))", "R9.4")
+V("c09-benign-local", "C09", ME, "        _max_width = console.width if max_width is None else max_width\n", "        _max_width = console.width if max_width is None else max_width\n        _limit = _max_width\n", None)
+
+# ---- C14 -----------------------------------------------------------------------
+V("c14-color-parse-no-try", "C14", CO, "            try:\n                triplet = ColorTriplet(int(red), int(green), int(blue))\n            except ValueError:\n                raise ColorParseError(\n                    f\"expected three integer components in {original_color!r}\"\n                ) from None", "            triplet = ColorTriplet(int(red), int(green), int(blue))", "R14.1")
+V("c14-ansi-isdigit", "C14", "rich/ansi.py", 'if _code.isdecimal()', 'if _code.isdigit()', "R14.1")
+V("c14-style-parse-uncaught", "C14", S, "                try:\n                    Color.parse(word)\n                except ColorParseError as error:\n                    raise errors.StyleSyntaxError(\n                        f\"unable to parse {word!r} as color; {error}\"\n                    ) from None\n                color = word", "                Color.parse(word)\n                color = word", "R14.")
+V("c14-get-style-wrong-except", "C14", CN, "        except errors.StyleSyntaxError as error:\n            if default is not None:", "        except errors.MissingStyle as error:\n            if default is not None:", "R14.")
+V("c14-components-unchecked", "C14", CO, "            if len(components) != 3:\n                raise ColorParseError(\n                    f\"expected three components in {original_color!r}\"\n                )\n", "", "R14.1")
+V("c14-bare-next", "C14", "rich/syntax.py", "                        try:\n                            _token_type, token = next(tokens)\n                        except StopIteration:\n                            break", "                        _token_type, token = next(tokens)", "R14.2")
+V("c14-benign-message", "C14", CO, 'raise ColorParseError(f"{original_color!r} is not a valid color")', 'raise ColorParseError(f"{original_color!r} is not a valid colour")', None)
+
+# ---- C15 -----------------------------------------------------------------------
+V("c15-record-in-render-buffer", "C15", CN, "        not_terminal = not self.is_terminal\n        if self.no_color and color_system:", "        if self.record:\n            with self._record_buffer_lock:\n                self._record_buffer.extend(buffer)\n        not_terminal = not self.is_terminal\n        if self.no_color and color_system:", "R15.1")
+V("c15-export-text-clears-always", "C15", CN, "                    if not segment.is_control\n                )\n            if clear:\n                del self._record_buffer[:]", "                    if not segment.is_control\n                )\n            del self._record_buffer[:]", "R15.2")
+V("c15-end-capture-exit-first", "C15", CN, "        render_result = self._render_buffer(self._buffer)\n        del self._buffer[:]\n        self._exit_buffer()", "        self._exit_buffer()\n        render_result = self._render_buffer(self._buffer)\n        del self._buffer[:]", "R15.3")
+V("c15-capture-exit-conditional", "C15", CN, "    def __exit__(self, exc_type, exc_val, exc_tb) -> None:\n        self._result = self._console.end_capture()", "    def __exit__(self, exc_type, exc_val, exc_tb) -> None:\n        if exc_type is None:\n            self._result = self._console.end_capture()\n        else:\n            self._console._exit_buffer()", "R15.3")
+V("c15-escape-order", "C15", CN, 'return text.replace("&", "&amp;").replace("<", "&lt;").replace(">", "&gt;")', 'return text.replace("<", "&lt;").replace(">", "&gt;").replace("&", "&amp;")', "R15.4")
+V("c15-export-text-keeps-control", "C15", CN, "                    for segment in self._record_buffer\n                    if not segment.is_control\n", "                    for segment in self._record_buffer\n", "R15.5")
+V("c15-simplify-one-sided", "C15", SG, "                and not segment.is_control\n                and not last_segment.is_control\n", "                and not segment.is_control\n", "R15.6")
+V("c15-benign-rename", "C15", CN, "        render_result = self._render_buffer(self._buffer)\n        del self._buffer[:]\n        self._exit_buffer()\n        return render_result", "        captured = self._render_buffer(self._buffer)\n        render_result = captured\n        del self._buffer[:]\n        self._exit_buffer()\n        return render_result", None)
+
+# ---- C16 -----------------------------------------------------------------------
+PT = "rich/pretty.py"
+V("c16-array-no-f", "C16", PT, 'f"array({_object.typecode!r})")', '"array({_object.typecode!r})")', "R16.1")
+V("c16-frozenset-brace", "C16", PT, 'frozenset: lambda _object: ("frozenset({", "})", "frozenset()"),', 'frozenset: lambda _object: ("frozenset({", ")", "frozenset()"),', "R16.1")
+V("c16-pop-only-nonempty", "C16", PT, "            else:\n                node = Node(empty=empty, children=[], last=root)\n\n            pop_visited(obj_id)", "                pop_visited(obj_id)\n            else:\n                node = Node(empty=empty, children=[], last=root)\n", "R16.2")
+V("c16-abbrev-count", "C16", PT, 'append(Node(value_repr=f"... +{num_items-max_length}", last=True))', 'append(Node(value_repr=f"... +{num_items}", last=True))', "R16.3")
+V("c16-tuple-of-one-inline", "C16", PT, "                if self.is_tuple and len(self.children) == 1:\n                    yield from self.children[0].iter_tokens()\n                    yield \",\"\n                else:\n                    for child in self.children:", "                if False:\n                    yield from self.children[0].iter_tokens()\n                    yield \",\"\n                else:\n                    for child in self.children:", "R16.4")
+V("c16-benign-newtype", "C16", PT, '    list: lambda _object: ("[", "]", "[]"),', '    list: lambda _object: ("[", "]", "[]"),\n    bytearray: lambda _object: ("bytearray([", "])", "bytearray()"),', None)
+
+# ---- C17 -----------------------------------------------------------------------
+SY = "rich/syntax.py"
+V("c17-stripnl-default", "C17", SY, "get_lexer_by_name(self.lexer_name, stripnl=False)", "get_lexer_by_name(self.lexer_name)", "R17.1")
+V("c17-bare-next", "C17", SY, "                        try:\n                            _token_type, token = next(tokens)\n                        except StopIteration:\n                            break", "                        _token_type, token = next(tokens)", "R17.2")
+V("c17-number-from-start-line", "C17", SY, "enumerate(lines, self.start_line + line_offset)", "enumerate(lines, self.start_line)", "R17.3")
+V("c17-slice-off-by-one", "C17", SY, "            lines = lines[line_offset:end_line]", "            lines = lines[line_offset + 1:end_line]", "R17.3")
+V("c17-token-lower", "C17", SY, "                    (token, _get_theme_style(token_type))\n                    for token_type, token in lexer.get_tokens(code)", "                    (token.rstrip(), _get_theme_style(token_type))\n                    for token_type, token in lexer.get_tokens(code)", "R17.4")
+V("c17-traceback-highlight-next", "C17", "rich/traceback.py", "highlight_lines={frame.lineno},", "highlight_lines={frame.lineno + 1},", "R17.5")
+V("c17-benign-var", "C17", SY, "        numbers_column_width = self._numbers_column_width\n        render_options = options.update(width=code_width)", "        render_options = options.update(width=code_width)\n        numbers_column_width = self._numbers_column_width", None)
+
+# ---- C19 -----------------------------------------------------------------------
+AN = "rich/ansi.py"
+V("c19-sgr-swap", "C19", AN, '    5: "blink",\n    6: "blink2",', '    5: "blink2",\n    6: "blink",', "R19.1")
+V("c19-color-table-off", "C19", AN, '    91: "color(9)",', '    91: "color(10)",', "R19.2")
+V("c19-bg-fills-fg", "C19", AN, "                                self.style += _Style.from_color(\n                                    None, from_ansi(next(iter_codes))\n                                )", "                                self.style += _Style.from_color(\n                                    from_ansi(next(iter_codes))\n                                )", "R19.3")
+V("c19-rgb-two-params", "C19", AN, "                                    from_rgb(\n                                        next(iter_codes),\n                                        next(iter_codes),\n                                        next(iter_codes),\n                                    )\n                                )\n                    elif code == 48:", "                                    from_rgb(\n                                        next(iter_codes),\n                                        next(iter_codes),\n                                        0,\n                                    )\n                                )\n                    elif code == 48:", "R19.3")
+V("c19-link-split", "C19", AN, '                    _params, semicolon, link = osc[2:].partition(";")\n                    if semicolon:', '                    fields = osc.split(";")\n                    semicolon = len(fields) > 2\n                    link = fields[2] if semicolon else ""\n                    if semicolon:', "R19.4")
+V("c19-flush-markup-on", "C19", "rich/file_proxy.py", "            self.__console.print(output, markup=False, emoji=False, highlight=False)", "            self.__console.print(output)", "R19.5")
+V("c19-write-clears-before-join", "C19", "rich/file_proxy.py", '                lines.append("".join(buffer) + line)\n                del buffer[:]', '                del buffer[:]\n                lines.append("".join(buffer) + line)', "R19.6")
+V("c19-benign-alias", "C19", "rich/file_proxy.py", "        if lines:\n            console = self.__console\n            with console:", "        if lines:\n            console = self.__console\n            decoder = self.__ansi_decoder\n            with console:", None)
+
+# ---- C20 -----------------------------------------------------------------------
+TH = "rich/theme.py"
+V("c20-pop-no-rebind", "C20", TH, "        self._entries.pop()\n        self.get = self._entries[-1].get", "        self._entries.pop()", "R20.1")
+V("c20-push-in-place", "C20", TH, "        styles = (\n            {**self._entries[-1], **theme.styles} if inherit else theme.styles.copy()\n        )", "        styles = (\n            {**self._entries[-1], **theme.styles} if inherit else theme.styles\n        )", "R20.2")
+V("c20-unpack-order", "C20", TH, "{**self._entries[-1], **theme.styles} if inherit", "{**theme.styles, **self._entries[-1]} if inherit", "R20.3")
+V("c20-base-guard-removed", "C20", TH, '        if len(self._entries) == 1:\n            raise ThemeStackError("Unable to pop base theme")\n', "", "R20.4")
+V("c20-exit-conditional", "C20", CN, "    def __exit__(self, exc_type, exc_val, exc_tb) -> None:\n        self.console.pop_theme()", "    def __exit__(self, exc_type, exc_val, exc_tb) -> None:\n        if exc_type is None:\n            self.console.pop_theme()", "R20.5")
+V("c20-inherit-dropped", "C20", CN, "        self.console.push_theme(self.theme, inherit=self.inherit)", "        self.console.push_theme(self.theme)", "R20.5")
+V("c20-parse-first", "C20", CN, "            style = self._theme_stack.get(name)\n            if style is None:\n                style = Style.parse(name)", "            style = Style.parse(name)", "R20.6")
+V("c20-benign-local", "C20", TH, "        self._entries.append(styles)\n        self.get = self._entries[-1].get", "        entries = self._entries\n        self._entries.append(styles)\n        self.get = self._entries[-1].get", None)
